@@ -5,6 +5,11 @@ name, path = sys.argv[1], sys.argv[2]
 old, new = sys.stdin.read().split("\n===\n")
 new = new.rstrip("\n")
 old = old.rstrip("\n")
+import os
+if not os.path.isdir("/tmp/mutwt"):
+    subprocess.run(["git", "-C", "/repo", "worktree", "add", "-q", "--detach", "/tmp/mutwt", "HEAD"], check=True)
+head = subprocess.run(["git", "-C", "/repo", "rev-parse", "HEAD"], capture_output=True, text=True).stdout.strip()
+subprocess.run(["git", "-C", "/tmp/mutwt", "checkout", "-q", "--detach", head], check=True)
 p = "/tmp/mutwt/" + path
 s = open(p).read()
 assert s.count(old) == 1, (s.count(old), old)
